@@ -359,46 +359,57 @@ func runC07(c *Ctx) {
 	// ---------- R5: wire field -> sink
 	if hb := c.mustMethod("C07.R5", "wire", "Session", "handleBind"); hb != nil {
 		R.Analysed(fname(hb))
-		// the message may be decoded by a helper that hands the fields back in a struct
-		dec := hb
-		gs := getStrings(hb)
-		if len(gs) == 0 {
-			for _, ci := range core.Calls(hb) {
-				if h := core.StaticCallee(ci); h != nil && c.P.InPkg(h, "wire") && h.Blocks != nil && len(getStrings(h)) == 2 {
-					dec, gs = h, getStrings(h)
-					R.Analysed(fname(h))
-				}
+		// the Bind unit: handleBind and the helpers of package wire it calls directly (a decoding half, a binding half);
+		// values are compared after following them through carriers, helper results and helper parameters
+		unit := []*ssa.Function{hb}
+		for _, ci := range core.Calls(hb) {
+			if h := core.StaticCallee(ci); h != nil && c.P.InPkg(h, "wire") && h.Blocks != nil && h.Signature.Recv() != nil && c.onlyCaller(h) == ci {
+				unit = append(unit, h)
+				R.Analysed(fname(h))
 			}
 		}
-		_ = dec
-		res := func(v ssa.Value) ssa.Value { r, _ := c.throughCarrier(v); return r }
+		rp, rc := c.bindDecoders()
+		stop := map[*ssa.Function]bool{rp: true, rc: true}
+		res := func(v ssa.Value) ssa.Value { return c.resolveFlow(v, stop, 6) }
+		var gs []*ssa.Call
+		for _, fn := range unit {
+			if g := getStrings(fn); len(g) == 2 && len(gs) == 0 {
+				gs = g
+			}
+		}
 		if len(gs) != 2 {
 			R.Fail("C07.R5", "Bind:fields", c.atFn(hb), "Bind reads the portal name and the statement name", sprintf("%d GetString calls", len(gs)))
 		} else {
 			portalName, stmtName := resultOf(gs[0], 0), resultOf(gs[1], 0)
 			var got *ssa.Call
-			for _, ci := range callsIn(hb, cacheInvoke("StatementCache", "Get")) {
-				got = ci.(*ssa.Call)
-				R.Check(res(got.Call.Args[1]) == stmtName, "C07.R5", "Bind:statement-name", c.at(ci), "Bind resolves the statement named by the message's second string", "Get(name = 2nd string)", "Statements.Get is not called with the message's statement name")
-			}
-			for _, ci := range callsIn(hb, cacheInvoke("PortalCache", "Bind")) {
-				a := ci.Common().Args
-				okStmt := got != nil && a[2] == resultOf(got, 0)
-				R.Check(res(a[1]) == portalName && okStmt, "C07.R5", "Bind:portal-name-and-statement", c.at(ci), "the portal is created under the message's first string and attached to the statement just resolved", "Bind(name = 1st string, stmt = Get result)", "Portals.Bind does not receive the message's portal name and the resolved statement")
-				rp, rc := c.bindDecoders()
-				okP, okF := false, false
-				if ex, ok := res(a[3]).(*ssa.Extract); ok {
-					if call, ok := ex.Tuple.(*ssa.Call); ok && c.tailTarget(core.StaticCallee(call), 2) == rp && ex.Index == 0 {
-						okP = true
-					}
+			nBind := 0
+			for _, fn := range unit {
+				for _, ci := range callsIn(fn, cacheInvoke("StatementCache", "Get")) {
+					got = ci.(*ssa.Call)
+					R.Check(res(got.Call.Args[1]) == stmtName, "C07.R5", "Bind:statement-name", c.at(ci), "Bind resolves the statement named by the message's second string", "Get(name = 2nd string)", "Statements.Get is not called with the message's statement name")
 				}
-				if ex, ok := res(a[4]).(*ssa.Extract); ok {
-					if call, ok := ex.Tuple.(*ssa.Call); ok && c.tailTarget(core.StaticCallee(call), 2) == rc && ex.Index == 0 {
-						okF = true
-					}
-				}
-				R.Check(okP && okF, "C07.R5", "Bind:parameters-and-formats", c.at(ci), "the portal stores this Bind's parameters and result formats", "Bind(readParameters result, readColumnTypes result)", "Portals.Bind does not receive this message's decoded parameters / result formats")
 			}
+			for _, fn := range unit {
+				for _, ci := range callsIn(fn, cacheInvoke("PortalCache", "Bind")) {
+					nBind++
+					a := ci.Common().Args
+					okStmt := got != nil && a[2] == resultOf(got, 0)
+					R.Check(res(a[1]) == portalName && okStmt, "C07.R5", "Bind:portal-name-and-statement", c.at(ci), "the portal is created under the message's first string and attached to the statement just resolved", "Bind(name = 1st string, stmt = Get result)", "Portals.Bind does not receive the message's portal name and the resolved statement")
+					okP, okF := false, false
+					if ex, ok := res(a[3]).(*ssa.Extract); ok {
+						if call, ok := ex.Tuple.(*ssa.Call); ok && c.tailTarget(core.StaticCallee(call), 2) == rp && ex.Index == 0 {
+							okP = true
+						}
+					}
+					if ex, ok := res(a[4]).(*ssa.Extract); ok {
+						if call, ok := ex.Tuple.(*ssa.Call); ok && c.tailTarget(core.StaticCallee(call), 2) == rc && ex.Index == 0 {
+							okF = true
+						}
+					}
+					R.Check(okP && okF, "C07.R5", "Bind:parameters-and-formats", c.at(ci), "the portal stores this Bind's parameters and result formats", "Bind(readParameters result, readColumnTypes result)", "Portals.Bind does not receive this message's decoded parameters / result formats")
+				}
+			}
+			R.Floor("C07.R5", "Portals.Bind calls in the Bind unit", nBind, 1)
 		}
 	}
 	if hp := c.mustMethod("C07.R5", "wire", "Session", "handleParse"); hp != nil {
@@ -824,4 +835,58 @@ func (c *Ctx) freshAlloc(v ssa.Value, depth int) bool {
 		return true
 	}
 	return false
+}
+
+// resolveFlow follows a value to where it was produced across the functions of one message handler: through a carrier
+// struct, from a parameter of a private helper to the argument its only caller passes, and from a result of a helper of
+// package wire to the single value that helper returns in that position on its successful returns. Calls of the
+// functions in stop are not looked into (their result is the thing asked for).
+func (c *Ctx) resolveFlow(v ssa.Value, stop map[*ssa.Function]bool, depth int) ssa.Value {
+	for ; depth > 0; depth-- {
+		v = core.Strip(v)
+		if r, h := c.throughCarrier(v); h != nil {
+			v = r
+			continue
+		}
+		if prm, ok := v.(*ssa.Parameter); ok {
+			if a, _ := c.callerArg(prm); a != nil {
+				v = a
+				continue
+			}
+			return v
+		}
+		ex, ok := v.(*ssa.Extract)
+		if !ok {
+			return v
+		}
+		call, ok := ex.Tuple.(*ssa.Call)
+		if !ok {
+			return v
+		}
+		h := core.StaticCallee(call)
+		if h == nil || stop[h] || stop[c.tailTarget(h, 2)] || !c.P.InPkg(h, "wire") || h.Blocks == nil {
+			return v
+		}
+		var uniq ssa.Value
+		okU := true
+		for _, r := range returns(h) {
+			if cls := c.Err().Classify(errOperand(r), r.Block()); !cls.MayBeNil() {
+				continue
+			}
+			if ex.Index >= len(r.Results) {
+				okU = false
+				continue
+			}
+			rv := forwardLoad(r.Results[ex.Index])
+			if uniq != nil && uniq != rv {
+				okU = false
+			}
+			uniq = rv
+		}
+		if !okU || uniq == nil {
+			return v
+		}
+		v = uniq
+	}
+	return v
 }
